@@ -27,6 +27,7 @@ var (
 	flagVerif    = flag.String("verif", "", "verif dir (default: parent of the binary's dir, else /verif)")
 	flagReplay   = flag.String("replay", "", "replay file: re-decide the obligation it names")
 	flagOverlay  = flag.String("overlay", "", "variant json {file,old,new}: analyse /repo with this single edit overlaid (checker self-test)")
+	flagPatch    = flag.String("overlaypatch", "", "unified diff applied to /repo in memory (checker self-test on a seeded mutant)")
 	flagGoarch   = flag.String("goarch", "", "GOARCH for loading")
 	flagList     = flag.Bool("list", false, "list rules")
 	flagVerbose  = flag.Bool("v", false, "print every obligation")
@@ -110,7 +111,9 @@ func runProp(prop string) (code int) {
 	}
 
 	var overlay *Variant
-	if *flagOverlay != "" {
+	if *flagPatch != "" {
+		overlay = &Variant{Name: filepath.Base(filepath.Dir(*flagPatch)), Patch: *flagPatch}
+	} else if *flagOverlay != "" {
 		v, err := readVariant(*flagOverlay)
 		if err != nil {
 			fmt.Fprintf(os.Stderr, "ctylint: %v\n", err)
